@@ -16,6 +16,8 @@ use syn::visit::Visit;
 
 #[path = "parsers_ext.rs"]
 mod ext;
+#[path = "parsers_r6.rs"]
+mod r6;
 
 fn toks<T: ToTokens>(t: &T) -> String {
     t.to_token_stream().to_string().replace(' ', "")
@@ -1020,6 +1022,7 @@ pub fn generate(repo: &PathBuf) -> Result<String, String> {
         s.push_str(&format!("/-- integers `RecordKind`'s `Deserialize` accepts -/\ndef recordKindTags : List (Nat × String) := [{}]\n", items.join(", ")));
     }
     ext::generate(repo, &mut s)?;
+    r6::generate(repo, &mut s)?;
     s.push_str("end SafeNet.Gen.Parsers\n");
     Ok(s)
 }
